@@ -19,6 +19,14 @@ type c15Family struct {
 }
 
 func c15Families(c *vk.Ctx) []c15Family {
+	fams := c15BaseFamilies(c)
+	if c.Thorough() {
+		fams = append(fams, c15FamNestsDeep(c))
+	}
+	return fams
+}
+
+func c15BaseFamilies(c *vk.Ctx) []c15Family {
 	return []c15Family{
 		c15FamLogic(c),
 		c15FamArgs(c),
@@ -31,6 +39,7 @@ func c15Families(c *vk.Ctx) []c15Family {
 		c15FamRange(c),
 		c15FamClosures(c),
 		c15FamOrder(c),
+		c15FamIndex(c),
 	}
 }
 
@@ -176,6 +185,20 @@ func c15Levels() []c15Level {
 		{"while-else", func(k string, b []c15Form) []c15Form {
 			return []c15Form{&c15While{Cond: c15V("false"), Body: c15Stmts(c15Put("never")), Else: c15Block(b)}}
 		}},
+		{"for+else", func(k string, b []c15Form) []c15Form {
+			return []c15Form{&c15For{Var: "x" + k, Cont: lst("1", "2"), Body: c15Block(b), Else: c15Stmts(c15Put("else" + k))}}
+		}},
+		{"while-true+else", func(k string, b []c15Form) []c15Form {
+			// while $true: the body must end the loop itself; a counter stops a runaway loop with an exception
+			i := "j" + k
+			guard := &c15If{Conds: []c15Expr{&c15Cap{c15Stmts(c15C(">", c15V(i), c15S("2")))}}, Bodies: []*c15Chunk{c15Stmts(c15C("fail", c15S("runaway")))}}
+			body := append([]c15Form{&c15Assign{Kind: "set", LHS: []c15LValue{{Name: i}}, HasEq: true,
+				RHS: []c15Expr{&c15Cap{c15Stmts(c15C("+", c15V(i), c15S("1")))}}}, guard}, b...)
+			return []c15Form{
+				&c15Assign{Kind: "var", LHS: []c15LValue{{Name: i}}, HasEq: true, RHS: c15Strs("0")},
+				&c15While{Cond: c15V("true"), Body: c15Block(body), Else: c15Stmts(c15Put("else" + k))},
+			}
+		}},
 		{"pipe-count", func(k string, b []c15Form) []c15Form {
 			return []c15Form{c15P(&c15Cmd{HeadExpr: c15Lam(c15Block(b))}, c15C("count"))}
 		}},
@@ -218,19 +241,38 @@ func c15Actions() []struct {
 }
 
 func c15FamNests(c *vk.Ctx) c15Family {
-	depth := vk.Pick(c, 3, 4)
-	levels := c15Levels()
+	return c15NestFamily("nests", c15Levels(), 1, 3)
+}
+
+// c15FamNestsDeep (thorough tier): depth exactly 4 over the twelve basic levels.
+func c15FamNestsDeep(c *vk.Ctx) c15Family {
+	basic := map[string]bool{"for": true, "while": true, "try-catch": true, "try-finally": true, "try-all": true, "elif": true,
+		"fn": true, "lambda": true, "each-arg": true, "pipe-each": true, "capture": true, "exc-capture": true}
+	var levels []c15Level
+	for _, l := range c15Levels() {
+		if basic[l.name] {
+			levels = append(levels, l)
+		}
+	}
+	return c15NestFamily("nests-deep", levels, 4, 4)
+}
+
+func c15NestFamily(name string, levels []c15Level, minDepth, depth int) c15Family {
 	actions := c15Actions()
-	// all level sequences of length 1..depth, shortest first
+	// all level sequences of length minDepth..depth, shortest first
 	counts := []int{}
 	total := 0
 	pow := 1
 	for d := 1; d <= depth; d++ {
 		pow *= len(levels)
-		counts = append(counts, pow*len(actions))
-		total += pow * len(actions)
+		n := pow * len(actions)
+		if d < minDepth {
+			n = 0
+		}
+		counts = append(counts, n)
+		total += n
 	}
-	return c15Family{Name: "nests", N: total, Build: func(i int) (*c15Chunk, string) {
+	return c15Family{Name: name, N: total, Build: func(i int) (*c15Chunk, string) {
 		d := 1
 		for i >= counts[d-1] {
 			i -= counts[d-1]
@@ -352,11 +394,11 @@ func c15FamArgs(c *vk.Ctx) c15Family {
 		case "var":
 			stmts = append(stmts, &c15Assign{Kind: "var", LHS: []c15LValue{{Name: "f"}}, HasEq: true, RHS: []c15Expr{lam}})
 			call.HeadExpr = c15V("f")
-			stmts = append(stmts, call)
+			stmts = append(stmts, c15C("put", &c15Index{c15V("f"), c15Strs("arg-names", "opt-names", "opt-defaults")}), call)
 		case "fn":
 			stmts = append(stmts, &c15Fn{Name: "f", L: lam})
 			call.Head = "f"
-			stmts = append(stmts, call)
+			stmts = append(stmts, c15C("put", &c15Index{c15V("f~"), c15Strs("arg-names", "opt-names", "opt-defaults")}), call)
 		default:
 			stmts = append(stmts, &c15Fn{Name: "f", L: lam})
 			call.Head = "f"
@@ -444,7 +486,7 @@ func c15FamValues(c *vk.Ctx) c15Family {
 		{"a", c15S("a")}, {"1", c15S("1")}, {"num2", capt("num", c15S("2"))},
 		{"list", &c15List{c15Strs("a", "1")}}, {"map", &c15Map{c15Strs("a"), c15Strs("1")}},
 		{"nil", c15V("nil")}, {"-1", c15S("-1")}, {"half", c15S("1/2")},
-		{"0", c15S("0")}, {"braced", &c15Braced{c15Strs("a", "0")}}, {"0.5", c15S("0.5")}, {"true", c15V("true")},
+		{"braced", &c15Braced{c15Strs("a", "0")}}, {"0", c15S("0")}, {"0.5", c15S("0.5")}, {"true", c15V("true")},
 	}
 	leaves = leaves[:vk.Pick(c, 9, 12)]
 	type binop struct {
@@ -952,5 +994,47 @@ func c15FamOrder(c *vk.Ctx) c15Family {
 			f = c15P(c15C("put", es...), cmd)
 		}
 		return c15Stmts(f, c15Put("e")), shape
+	}}
+}
+
+// ---- family 12: indexing of lists and maps ----
+
+func c15FamIndex(c *vk.Ctx) c15Family {
+	capt := func(head string, args ...c15Expr) c15Expr { return &c15Cap{c15Stmts(c15C(head, args...))} }
+	type named struct {
+		name string
+		e    c15Expr
+	}
+	var idx []named
+	for _, s := range []string{"0", "1", "2", "3", "-1", "-3", "-4", "1..", "..2", "1..2", "0..=1", "..=2", "..=3", "3..", "4..", "-2..", "..-1",
+		"..", "x", "1.0", "", "1..x", "-0", "+1", "1..=", "..=-1", "-4..", "0..4", "k", "a..b"} {
+		idx = append(idx, named{s, c15S(s)})
+	}
+	idx = append(idx, named{"num1", capt("num", c15S("1"))}, named{"num1.5", capt("num", c15S("1.5"))}, named{"num-1", capt("num", c15S("-1"))},
+		named{"list", &c15List{c15Strs("0")}}, named{"nil", c15V("nil")}, named{"braced", &c15Braced{c15Strs("0", "2")}}, named{"none", capt("put")})
+	heads := []named{
+		{"list3", &c15List{[]c15Expr{c15S("p"), c15S("q"), &c15List{c15Strs("r", "s")}}}},
+		{"list0", &c15List{nil}},
+		{"map", &c15Map{[]c15Expr{c15S("k"), c15S("1"), c15S("a..b"), capt("num", c15S("1"))}, c15Strs("vk", "v1", "vab", "vn1")}},
+		{"two-lists", &c15Braced{[]c15Expr{&c15List{c15Strs("p", "q")}, &c15List{c15Strs("r", "s", "t")}}}},
+		{"nil", c15V("nil")}, {"num", capt("num", c15S("12"))}, {"bool", c15V("true")},
+	}
+	ni, nh := len(idx), len(heads)
+	return c15Family{Name: "index", N: nh*ni + nh*ni*ni, Build: func(i int) (*c15Chunk, string) {
+		var e c15Expr
+		var shape string
+		if i < nh*ni {
+			h, x := heads[i/ni], idx[i%ni]
+			e, shape = &c15Index{h.e, []c15Expr{x.e}}, h.name+"["+x.name+"]"
+		} else {
+			i -= nh * ni
+			h, x, y := heads[i/(ni*ni)], idx[i/ni%ni], idx[i%ni]
+			if i%2 == 0 {
+				e, shape = &c15Index{h.e, []c15Expr{x.e, y.e}}, h.name+"["+x.name+" *]"
+			} else {
+				e, shape = &c15Index{&c15Index{h.e, []c15Expr{x.e}}, []c15Expr{y.e}}, h.name+"["+x.name+"][*]"
+			}
+		}
+		return c15Stmts(c15C("put", e), c15Put("e")), shape
 	}}
 }
